@@ -178,6 +178,31 @@ def run_history(hist, acc, prime=True, foreign=False):
         acc.count("histories_on_a_foreign_procfs")
     step_ticks = []
     reuse_ticks = {}
+    # for a share of the histories every call made after the first clock step comes from a thread of its own (a pool worker,
+    # a watchdog started later): which thread asks is no part of the answer
+    other_threads = harness.chash([list(o) for o in hist])[-1] in "012" and any(o[0] == "step" for o in hist)
+    stepped_yet = [False]
+
+    def apply(op_):
+        if op_[0] == "step":
+            stepped_yet[0] = True
+        if not (other_threads and stepped_yet[0]) or op_[0] in ("step", "spawn", "exit", "reap", "vanish", "epoch0", "thread", "fault"):
+            return w.apply(op_)
+        import threading
+        box = {}
+
+        def run():
+            try:
+                box["rec"] = w.apply(op_)
+            except BaseException as e:  # noqa: BLE001
+                box["exc"] = e
+        th = threading.Thread(target=run)
+        th.start()
+        th.join()
+        if "exc" in box:
+            raise box["exc"]
+        acc.count("calls_made_from_a_fresh_thread_after_a_clock_step")
+        return box["rec"]
     with w:
         for op in hist:
             op = tuple(op)
@@ -198,8 +223,8 @@ def run_history(hist, acc, prime=True, foreign=False):
                 continue
             if w.fault_armed and w.fault_armed[0] and op[0] not in ("new", "newp", "isrun", "q", "fault"):
                 w.fault_armed[0] = False        # the transient failure only strikes constructions and queries of an object
-            rec = w.apply(op)
-            ctx = f"history={[list(o) for o in hist]} at op={list(op)}"
+            rec = apply(op)
+            ctx = f"history={[list(o) for o in hist]} at op={list(op)}" + (" [calls after the step come from fresh threads]" if other_threads else "")
             faulted = w.fault_fired_tick == rec["tick"]
             if faulted:
                 acc.count("transient_oserror_injected")
@@ -256,7 +281,7 @@ def run_history(hist, acc, prime=True, foreign=False):
         if w.fault_armed:
             w.fault_armed[0] = False
         for i, h in enumerate(w.handles):
-            rec = w.apply(("isrun", i))
+            rec = apply(("isrun", i))
             acc.count("is_running_checked")
             if not rec["model"]:
                 nontrivial = True
